@@ -612,6 +612,30 @@ func (c *Ctx) boundLeaves(v ssa.Value) []leaf {
 			for _, e := range x.Edges {
 				walk(e)
 			}
+		case *ssa.Parameter:
+			// helper functions: the bound derives from the arguments at every call site
+			fn := x.Parent()
+			idx := -1
+			for i, q := range fn.Params {
+				if q == x {
+					idx = i
+				}
+			}
+			sites := p.CallSitesOf(fn)
+			okAll := idx >= 0 && len(sites) > 0
+			for _, s := range sites {
+				cc := s.Ins.(ssa.CallInstruction).Common()
+				if cc.StaticCallee() == nil || idx >= len(cc.Args) {
+					okAll = false
+				}
+			}
+			if !okAll {
+				out = append(out, leaf{v, "other", nil})
+				return
+			}
+			for _, s := range sites {
+				walk(s.Ins.(ssa.CallInstruction).Common().Args[idx])
+			}
 		case *ssa.Call:
 			if b, ok := x.Call.Value.(*ssa.Builtin); ok && (b.Name() == "len" || b.Name() == "cap") {
 				arg := x.Call.Args[0]
@@ -773,8 +797,8 @@ func (c *Ctx) boundOK(v ssa.Value, at ssa.Instruction, sliced ssa.Value) (bool, 
 		case "readn":
 			// D2: n of a Read into a buffer that derives from the sliced operand (same backing array)
 			okBuf := false
-			base := c.P.Origins(sliced, eng.Plain)
-			for _, o := range c.P.Origins(lf.of, eng.Plain) {
+			base := c.P.Origins(sliced, eng.Deep)
+			for _, o := range c.P.Origins(lf.of, eng.Deep) {
 				for _, b2 := range base {
 					if o == b2 {
 						okBuf = true
@@ -1343,26 +1367,30 @@ func alignDischarge(c *Ctx, call *ssa.Call) (bool, string) {
 	if !sameBuf {
 		return true, "dst and plaintext are different buffers||"
 	}
-	// dst.Low must be (pt.Low - SaltSize()) syntactically, with SaltSize of the same key as the Pack call
+	// dst.Low must be (pt.Low - SaltSize()) syntactically, with SaltSize of the same key as the Pack call (the salt size may be
+	// computed by the caller and passed in)
 	lo := p.Resolve(dst.Low)
 	bo, ok := lo.(*ssa.BinOp)
 	if !ok || bo.Op != token.SUB || p.Resolve(bo.X) != p.Resolve(pt.Low) {
 		return false, "in-place Pack: dst does not start at (plaintext start - salt size): the SDK requires dst[saltSize:] to alias plaintext exactly, otherwise it panics or corrupts the packet"
 	}
-	ss, ok := p.Resolve(bo.Y).(*ssa.Call)
-	if !ok || eng.CalleeName(&ss.Call) != "(*sdk/shadowsocks.EncryptionKey).SaltSize" {
-		return false, "in-place Pack: the offset between dst and plaintext is not key.SaltSize()"
-	}
-	sameKey := false
-	for _, a := range p.Origins(ss.Call.Args[0], eng.Plain) {
-		for _, b := range p.Origins(call.Call.Args[2], eng.Plain) {
-			if a == b || (sameFieldLoad(a, b)) {
-				sameKey = true
+	keyO := p.Origins(call.Call.Args[2], deepF)
+	okSS, bad := p.AllFrom(bo.Y, deepF, func(v ssa.Value) bool {
+		ss, ok := v.(*ssa.Call)
+		if !ok || eng.CalleeName(&ss.Call) != "(*sdk/shadowsocks.EncryptionKey).SaltSize" {
+			return false
+		}
+		for _, a := range p.Origins(ss.Call.Args[0], deepF) {
+			for _, b := range keyO {
+				if a == b || sameFieldLoad(a, b) {
+					return true
+				}
 			}
 		}
-	}
-	if !sameKey {
-		return false, "in-place Pack: the salt size used for the offset is taken from a different key than the one packing"
+		return false
+	})
+	if !okSS {
+		return false, "in-place Pack: the offset between dst and plaintext is not SaltSize() of the key that packs: " + valsStr(p, bad)
 	}
 	return true, "dst starts exactly key.SaltSize() before plaintext in the same buffer||"
 }
